@@ -92,6 +92,28 @@ def check_subscripts(run, rule, fns):
                             continue
                 if cont is None:
                     continue
+                if nd.get("k") == "Index":
+                    bt_ = (unwrap(nd.get("base")) or {}).get("t", "")
+                    bu_ = ir.unwrap_all_casts(nd.get("base"))
+                    if "[" not in bt_ and isinstance(bu_, dict):
+                        bt_ = bu_.get("t", "") or bt_
+                    if "[" in bt_ and "]" in bt_:
+                        # a built-in array has no size() to compare with: the interval of the index against the extent
+                        try:
+                            ext_ = int(bt_[bt_.index("[") + 1:bt_.index("]")])
+                        except ValueError:
+                            ext_ = None
+                        from .. import ranges as _rg
+                        iv = _rg.rng(idx, _rg.Ctx(g, env, run.facts.enums, loops)) if ext_ is not None else None
+                        if iv is not None:
+                            n += 1
+                            inside = iv[0] >= 0 and iv[1] < ext_
+                            outside = iv[0] >= ext_ or iv[1] < 0
+                            run.ob(rule, "%s:%s[%s]" % (fname(f), show(cont)[:40], show(idx)[:40]), True if inside else (False if outside else None), f, nd.get("l", 0),
+                                   "index in [%d, %d], inside the array extent %d" % (iv[0], iv[1], ext_) if inside else
+                                   "index %s ranges over [%d, %d]; the array has %d elements%s" % (
+                                       show(idx)[:60], iv[0], iv[1], ext_, "" if outside else " (no bound on it was found on the path to the access)"))
+                            continue
                 n += 1
                 cp = path(cont)
                 # a by-value local copy has the size of its source (`std::string dname = wire_dname`)
